@@ -155,10 +155,13 @@ def rule_b(ctx, ix, hub):
                 for g in guards)
     if restore_prev:
         outer = any(_mentions_field(g.test, s, '_paused') or saved in unparse(g.test) for g in guards)
-    ctx.ob(R, f.construct, 'the flush runs only when the outermost block closes', outer,
-           detail='Hub.delay_callbacks flushes the queue at the exit of every block, not only the outermost one (no test '
-                  'of the pause depth guards the flush): messages are delivered while an outer delay block is still open',
-           where=where(f, lp))
+    any_depth_test = any(_mentions_field(g.test, s, '_paused') for g in guards) or \
+        any(isinstance(n, ast.If) and _mentions_field(n.test, s, '_paused') and any(isinstance(x, ast.Return) for x in n.body)
+            and n.lineno < lp.lineno and n.lineno > y.lineno for n in ast.walk(node))
+    ctx.idiom(R, f.construct, 'the flush runs only when the outermost block closes', accepted=outer, absent=not any_depth_test,
+              detail_absent='Hub.delay_callbacks flushes the queue at the exit of every block, not only the outermost one (no test '
+                            'of the pause depth guards the flush): messages are delivered while an outer delay block is still open',
+              shape='; '.join(unparse(g.test) for g in guards), where=where(f, lp))
     detached = False
     why = ''
     if isinstance(lp, ast.For):
@@ -313,6 +316,8 @@ def rule_d(ctx, ix, hub):
             if unparse(e) == pname:
                 pidx = i
     order_ok = False
+    sorts_seen = 0
+    known_bad = False
     detail = 'no sort by priority found'
     for c in calls_in(f.node):
         if isinstance(c.func, ast.Name) and c.func.id == 'sorted' or call_name(c) == 'sort':
@@ -323,20 +328,24 @@ def rule_d(ctx, ix, hub):
                     key = k.value
                 if k.arg == 'reverse':
                     rev = isinstance(k.value, ast.Constant) and bool(k.value.value)
+            sorts_seen += 1
             if key is None or not isinstance(key, ast.Lambda):
+                detail = 'the handlers are sorted without a recognisable priority key: %s' % unparse(c)[:80]
                 continue
             body = unparse(key.body).replace(' ', '')
             arg = key.args.args[0].arg
             if pidx is not None and body == '%s[%d]' % (arg, pidx):
                 order_ok = rev
+                known_bad = not rev
                 detail = 'handlers are sorted by priority ascending (reverse=%s): lower-priority handlers run first' % rev
             elif pidx is not None and body == '-%s[%d]' % (arg, pidx):
                 order_ok = not rev
+                known_bad = rev
                 detail = 'handlers are sorted by -priority with reverse=True: lower-priority handlers run first'
             else:
                 detail = 'the sort key %s is not the priority element of the listed tuples' % unparse(key.body)
-    ctx.ob(R, f.construct, 'handlers are delivered in descending priority', order_ok, detail='Hub._find_handlers: ' + detail,
-           where=f.where)
+    ctx.idiom(R, f.construct, 'handlers are delivered in descending priority', accepted=order_ok,
+              absent=(sorts_seen == 0) or known_bad, detail_absent='Hub._find_handlers: ' + detail, shape=detail, where=f.where)
 
 
 def _key_is_mro_len(ix, f, key):
